@@ -100,7 +100,11 @@ CLAIMED = {
         "abscissa reverses the output, and the default residual is (data - model) x weights. Tied by exact "
         "correspondence with deliberately order-sensitive harness models registered in the real registry. "
         "Partial: translation/baseline/linearity/monotonicity/continuity are theorems only for the regenerated "
-        "shipped model functions (Props/C02); for user models they are monitored by the contract oracle.",
+        "shipped model functions (Props/C02); for user models they are monitored by the contract oracle. The "
+        "default weighting distances of the three residual entry points and the declared value / limits of every "
+        "shipped parameter are regenerated from source; that they agree, that every declared interval is non-empty "
+        "and holds its default, and that the layer thickness has a positive lower limit are kernel-evaluated "
+        "theorems over that table (Props/C13Defaults).",
         "Trusted: Lean kernel, standard axioms, hand model (exact sampled correspondence), numpy slicing.",
         "Lean 4 proof (quantified over all model functions) + exact correspondence + contract oracle on every "
         "registered model", "DESIGN.md §5 C13"),
